@@ -142,7 +142,7 @@ Lemma mon_step_accepts_ck : forall ck c a a' m m' o x pre post,
   (ck_just ck = true -> o_cls x = 1 -> refusal_justified c a m o = true) ->
   (ck_cap ck = true -> forall i inb fd ip, o = OOpenConn i inb fd (Some ip) -> o_cls x = 0 ->
      cap_ok c (open_ips a' false) ip = true) ->
-  (ck_just ck = true -> answer_ok a o (o_cls x) = true) ->
+  (ck_just ck = true -> answer_ok c a o (o_cls x) = true) ->
   mon_step_gen ck c a m o x = inl (a', m').
 Proof.
   intros ck c a a' m m' o x pre post LO Ha Em (sm & I & L) Hpre Hprio Hjust Hcap Hans. unfold mon_step_gen. rewrite Ha, <- Em.
